@@ -3,6 +3,7 @@
 package websocket
 
 import (
+	"bufio"
 	"crypto/rand"
 	"io"
 )
@@ -140,4 +141,11 @@ func connReady(c *Conn) bool {
 // keeps writeMu (and on a client writeFrameMu) force-locked for good.
 func connIdle(c *Conn) bool {
 	return connReady(c) && (gvcClosed(c.closed) || (!gvcHeld(c.writeFrameMu.ch) && !gvcHeld(c.msgWriter.writeMu.ch)))
+}
+
+// specFreshWriter: the ghost byte stream of a bufio.Writer handed to newConn starts empty
+// (the stream model of a connection begins after the opening handshake).
+func specFreshWriter(w *bufio.Writer) bool {
+	g := ghwr(w)
+	return g.pos == 0 && g.buffered == 0 && g.size > 0
 }
